@@ -56,6 +56,9 @@ M = {
     "zero-dim-treated-as-unknown": (["C03"], [("src/spox/_shape.py",
         "        if isinstance(value, int):\n            return Constant(value)\n        elif isinstance(value, str):\n            return Unknown(value)\n        elif value is None:",
         "        if isinstance(value, int) and value:\n            return Constant(value)\n        elif isinstance(value, str):\n            return Unknown(value)\n        elif not value:")]),
+    "repeated-output-var-named-once": (["C03"], [("src/spox/_build.py",
+        "        for key, var in zip(request_results, vars):\n            if set_names:\n                var._rename(key)",
+        "        by_var = dict(zip(request_results.values(), vars))\n        for key, req in request_results.items():\n            if set_names:\n                by_var[req]._rename(key)")]),
     # ---- C12
     # ---- refactorings of internals the harness looks at, combined with a real fault
     "refactor-manager-renamed-no-finally": (["C12"], [
